@@ -350,7 +350,54 @@ func propC13(c *ctx) error {
 			}
 		}
 	}
+	// ---- data of Go types outside the model's universe (native oracle only): UNNAMED struct types that embed a type with
+	// methods (the methods are promoted although the type has no name), a named map type with methods, a pointer to
+	// a pointer, interface-typed fields
+	{
+		sv := S{A: 5, B: "bee", c: 2, L: []int{1, 2}, M: map[string]any{"x": 1}, In: In{9, 77}}
+		anon := struct {
+			S
+			Extra string
+		}{sv, "x"}
+		anonP := struct {
+			*S
+			N int
+		}{&sv, 3}
+		pp := &sv
+		data := map[string]any{"vm": anon, "vp": anonP, "pvm": &anon, "nm": namedMap{"k": 1, "Len": 2}, "pp": &pp,
+			"box": struct{ V any }{V: sv}, "boxp": struct{ V fmt.Stringer }{V: stringerT("st")}}
+		cases := []struct{ src, want string }{
+			{"vm.Get()", "int:5"}, {"vm['Get']()", "int:5"}, {"vm.A", "int:5"}, {"vm.Extra", "string:" + hexOf("x")}, {"vm.Ok()", "int:5"},
+			{"vm.Z", "int:9"}, {"vm.S.B", "string:" + hexOf("bee")}, {"pvm.Get()", "int:5"}, {"pvm.Extra", "string:" + hexOf("x")},
+			{"vp.Get()", "int:5"}, {"vp.Ptr()", "int:6"}, {"vp.N", "int:3"}, {"vp.A", "int:5"},
+			{"nm.Size()", "int:2"}, {"nm.k", "int:1"}, {"nm['Len']", "int:2"},
+			{"box.V.A", "int:5"}, {"box.V.Get()", "int:5"}, {"boxp.V.String()", "string:" + hexOf("st")},
+			{"vm.Nope", "error"}, {"vm.c", "error"}, {"nm.absent", "error"},
+		}
+		for _, cs := range cases {
+			out := implEvalStable(cs.src, []any{data})
+			got := "error"
+			if out.R == "ok" {
+				got = out.V
+			}
+			res.eval("native|"+cs.src, true, J{"src": cs.src})
+			res.S3Checked++
+			res.count("native_type_paths")
+			if got != cs.want {
+				res.violate(J{"src": cs.src, "data": "anonymous struct embedding S / *S, named map with a method, boxed values (prop_c13.go)"}, cs.want, got+" "+trunc(out.Err, 140),
+					"access path on a Go type with promoted / named-type methods does not agree with the Go value")
+			}
+		}
+	}
 	return nil
 }
 
 var errUnspecified = errors.New("unspecified")
+
+type namedMap map[string]int
+
+func (m namedMap) Size() int { return len(m) }
+
+type stringerT string
+
+func (s stringerT) String() string { return string(s) }
